@@ -17,7 +17,10 @@ EXPLANATION = (
     "back, each under its own column name; attributes the readers index "
     "are attributes the writer sets; for every key of FP_DEFAULT and "
     "FP_RESULTS the writer's encoding branch and the loader's decoding "
-    "branch form an inverse pair; the 'fit ' attribute prefix agrees; (R2) "
+    "branch form an inverse pair (lookup tables of encoders included); the "
+    "'fit ' attribute prefix agrees; user name, rating and comment are "
+    "written from the arguments on every completed save (the store "
+    "dominates the normal exit), so re-saving updates them; (R2) "
     "append-only: every HDF5 mutation targets the new data/<hash> dataset "
     "(guarded by absence), the new analysis group (guarded by absence) or "
     "the user/version attributes; an existing entry receives only those; "
